@@ -11,6 +11,14 @@ examples are deliberately simple), with the degenerate all-minimal first example
 from __future__ import annotations
 
 import hashlib
+import os
+
+
+def scaled(n, ctx):
+    """Thorough-tier case count under the driver's development aid VERIF_SCALE (never below one case per shard)."""
+    if ctx.tier != "thorough":
+        return n
+    return max(ctx.nshards, int(n * float(os.environ.get("VERIF_SCALE", "1") or 1)))
 
 
 def collect(strategy, n, seed, salt="", pool=None):
